@@ -11,6 +11,7 @@ by every `step`), all connection identifiers, packets and histories.
 -/
 import Mqtt.Proofs.BrokerQosFifo
 import Mqtt.Proofs.BrokerQosHistory
+import Mqtt.Proofs.BrokerQosPersist
 import Mqtt.Properties.C13
 
 namespace Mqtt.Properties.C02
@@ -416,6 +417,95 @@ example :
     bound demo 2 2 = true ∧ bound demo 1 1 = true ∧
     opened demo 2 evs = [p5, p6] ∧ handed demo 2 evs = [p5, p6] ∧ pub2inOf (run demo evs).1 2 = [] ∧
     opened demo 1 evs = [o5] ∧ handed demo 1 evs = [] ∧ pub2inOf (run demo evs).1 1 = [⟨5, 0, o5⟩] := by
+  decide
+
+/-! ## (g) persistence of open exchanges -/
+
+/-- **(g), end of connection.**  When a live connection bound to a session object
+kept with CleanSession=0 ends — socket closed / keep-alive expiry (`close`) or a
+DISCONNECT packet — the session store is unchanged and the session object is
+still there with its client identifier, CleanSession=0 and the same inbound
+QoS 2 queue.  (Whatever the will does in between: `onPublish` cannot touch
+sessions, (a).) -/
+theorem C02_persist_stop (b : B) (hI : BInv b) (c r : Nat) (hb : bound b c r = true) (s : Sess)
+    (hs : b.getSess r = some s) (hcl : s.clean = false) (ev : Ev)
+    (hev : ev = .close c ∨ ev = .packet c .disconnect) :
+    (step b ev).1.store = b.store ∧
+    ∃ s', (step b ev).1.getSess r = some s' ∧ s'.clean = false ∧ s'.cid = s.cid ∧ s'.pub2in = s.pub2in := by
+  obtain ⟨_, cn, s0, hc, ha, hs0, hr, _, _⟩ := bound_sess hI hb
+  subst hr
+  rw [hs] at hs0; cases hs0
+  rcases hev with rfl | rfl
+  · obtain ⟨h1, s', h2, h3, h4, h5, _⟩ := stop_persist hc ha hs hcl
+    exact ⟨h1, s', h2, h3, h4, h5⟩
+  · obtain ⟨h1, s', h2, h3, h4, h5, _⟩ := disconnect_persist hc ha hs hcl
+    exact ⟨h1, s', h2, h3, h4, h5⟩
+
+/-- **(g), resumption.**  An accepted CONNECT with CleanSession=0 whose client
+identifier the store maps to a session object kept with CleanSession=0 is
+answered `CONNACK(SP=1, 0)`, and the new connection is live and bound to that
+same session object, whose inbound QoS 2 queue — the open exchanges — is
+unchanged: the PUBRELs of the new connection complete them (`C02_pubrel`). -/
+theorem C02_resume (b : B) (c : Nat) (req : Connect) (r : Nat) (s : Sess)
+    (hd : connectDecode req = .inr true) (hne : req.clientId.isEmpty = false) (hcl : req.clean = false)
+    (hst : b.storeGet req.clientId = some r) (hs : b.getSess r = some s) (hsc : s.clean = false) :
+    (first b c (.connect req) true).2 = [.send c (.connack true 0)] ∧
+    bound (first b c (.connect req) true).1 c r = true ∧
+    pub2inOf (first b c (.connect req) true).1 r = s.pub2in ∧
+    ∃ s', sessOf (first b c (.connect req) true).1 c = some s' ∧ s'.ref = r ∧ s'.pub2in = s.pub2in :=
+  first_resume c req r s hd hne hcl hst hs hsc
+
+/-- **(g), both together.**  Exchanges open on a CleanSession=0 session when its
+connection ends are open on the connection that next resumes the session. -/
+theorem C02_persist (b : B) (hI : BInv b) (c r : Nat) (hb : bound b c r = true) (s : Sess)
+    (hs : b.getSess r = some s) (hcl : s.clean = false) (ev : Ev)
+    (hev : ev = .close c ∨ ev = .packet c .disconnect)
+    (c' : Nat) (req : Connect) (hd : connectDecode req = .inr true)
+    (hne : req.clientId.isEmpty = false) (hrc : req.clean = false)
+    (hst : b.storeGet req.clientId = some r) :
+    let b1 := (step b ev).1
+    (first b1 c' (.connect req) true).2 = [.send c' (.connack true 0)] ∧
+    bound (first b1 c' (.connect req) true).1 c' r = true ∧
+    pub2inOf (first b1 c' (.connect req) true).1 r = pub2inOf b r := by
+  obtain ⟨h1, s', h2, h3, _, h5⟩ := C02_persist_stop b hI c r hb s hs hcl ev hev
+  have hst' : (step b ev).1.storeGet req.clientId = some r := by
+    unfold B.storeGet at hst ⊢; rw [h1]; exact hst
+  obtain ⟨g1, g2, g3, _⟩ := first_resume c' req r s' hd hne hrc hst' h2 h3
+  refine ⟨g1, g2, ?_⟩
+  rw [g3, h5]; simp [pub2inOf, hs]
+
+/-- **(g), clean start.**  An accepted CONNECT with CleanSession=1 is answered
+`CONNACK(SP=0, 0)` and the new connection is bound to a new session object (the
+next fresh reference) whose inbound QoS 2 queue is empty; by `C02_queue_frame`
+no existing queue is changed. -/
+theorem C02_clean_start (b : B) (c : Nat) (req : Connect)
+    (hd : connectDecode req = .inr true) (hcl : req.clean = true) :
+    (first b c (.connect req) true).2 = [.send c (.connack false 0)] ∧
+    bound (first b c (.connect req) true).1 c b.nextRef = true ∧
+    ∃ s', sessOf (first b c (.connect req) true).1 c = some s' ∧ s'.ref = b.nextRef ∧ s'.pub2in = [] := by
+  apply first_fresh c req hd
+  have : (cidOf c req).2 = true := by
+    unfold cidOf; split <;> simp [hcl]
+  rw [this]; rfl
+
+/-- Connection 1 ("a", CleanSession=0, session object 1) has exchange 5 open when
+its socket closes; connection 3 resumes "a": SP=1, exchange 5 still open with
+its content; PUBREL 5 on connection 3 hands it on (to the callback, and to
+connection 3 itself, for which the session's subscription to `t` was
+re-established) and is answered PUBCOMP 5.  Connection 4 then connects as "a" with CleanSession=1: SP=0, new
+session object 3 with an empty queue. -/
+example :
+    let p5 : Pub := { qos := 2, topic := [116], pktid := 5, payload := [1] }
+    let evs : List Ev :=
+      [.packet 1 (.publish p5), .close 1, .first 3 (connectPkt [97] false) true]
+    let b3 := (run demo evs).1
+    (run demo evs).2 = [[.send 1 (.pubrec 5)], [.closed 1], [.send 3 (.connack true 0)]] ∧
+    bound b3 3 1 = true ∧ pub2inOf b3 1 = [⟨5, 0, p5⟩] ∧
+    (step b3 (.packet 3 (.pubrel 5))).2 =
+      [.call 1000 { p5 with qos := 1 }, .send 3 (.publish p5), .send 3 (.pubcomp 5)] ∧
+    (step b3 (.first 4 (connectPkt [97] true) true)).2 = [.send 4 (.connack false 0)] ∧
+    bound (step b3 (.first 4 (connectPkt [97] true) true)).1 4 3 = true ∧
+    pub2inOf (step b3 (.first 4 (connectPkt [97] true) true)).1 3 = [] := by
   decide
 
 end Mqtt.Properties.C02
